@@ -197,4 +197,14 @@ def setParams (c : Circ) (ps : List Int) : Except Err Circ :=
 /-- the structural part of an operation: everything except parameter values -/
 def skeleton (o : Op) : Nat × List Nat × List Nat × Nat := (o.gid, o.loc, o.rad, o.par.length)
 
+/-! ## 6. the whole of `multi_start_instantiate_inplace`, given the per-start results -/
+
+/-- `params = sorted(params_list, key=cost)[0]; circuit.set_params(params)`; the optimiser is
+abstracted to "returns some parameter vector per start" (`cands`).  `IndexError` for no start. -/
+def instantiateModel {κ : Type} [LE κ] [DecidableLE κ] (c : Circ) (cands : List (List Int))
+    (cost : List Int → κ) : Except Err Circ :=
+  match multiStart cands cost with
+  | none => .error .index
+  | some p => setParams c p
+
 end BqVerif.Cost
